@@ -700,7 +700,7 @@ fn to_cutoff(c: &CutoffD) -> Cutoff<Val> {
     }
 }
 /// inp.map(to map type).incr_mapi_(user fn).map(back to Val)
-fn perkey_new(state: &WeakState, inp: &I, cutoff: Option<CutoffD>, f: BindFn, ordmap: bool) -> I {
+fn perkey_new(state: &WeakState, inp: &I, cutoff: Option<CutoffD>, f: BindFn, ordmap: bool, filter: bool) -> I {
     use incremental_map::prelude::*;
     use std::collections::BTreeMap;
     let c = ctx();
@@ -715,20 +715,46 @@ fn perkey_new(state: &WeakState, inp: &I, cutoff: Option<CutoffD>, f: BindFn, or
         let (b2, r2) = &f2.templates[0];
         instantiate(&st, &Val::Int(*key), b2, r2)
     };
+    // the filter flavour: the per-key result is Some(x) unless 3 divides x (fn_sem 11 of the model)
+    fn keep(v: &Val) -> Option<Val> {
+        if v.as_int().rem_euclid(3) == 0 {
+            None
+        } else {
+            Some(v.clone())
+        }
+    }
     if !ordmap {
         let conv_in: Incr<BTreeMap<i64, Val>> =
             inp.map(|v: &Val| v.as_zmap().iter().map(|(k, v)| (*k, Val::Int(*v))).collect());
-        let out = match &cutoff {
-            None => conv_in.incr_mapi_(userfn),
-            Some(cd) => conv_in.incr_mapi_cutoff(userfn, to_cutoff(cd)),
+        let out: Incr<BTreeMap<i64, Val>> = if filter {
+            let mut uf = userfn;
+            let ff = move |key: &i64, input: Incr<Val>| -> Incr<Option<Val>> { uf(key, input).map(keep) };
+            match &cutoff {
+                None => conv_in.incr_filter_mapi_(ff),
+                Some(cd) => conv_in.incr_filter_mapi_cutoff(ff, to_cutoff(cd)),
+            }
+        } else {
+            match &cutoff {
+                None => conv_in.incr_mapi_(userfn),
+                Some(cd) => conv_in.incr_mapi_cutoff(userfn, to_cutoff(cd)),
+            }
         };
         out.map(|m| Val::Map(m.iter().map(|(k, v)| (*k, v.as_int())).collect()))
     } else {
         let conv_in: Incr<im_rc::OrdMap<i64, Val>> =
             inp.map(|v: &Val| v.as_zmap().iter().map(|(k, v)| (*k, Val::Int(*v))).collect());
-        let out = match &cutoff {
-            None => conv_in.incr_mapi_(userfn),
-            Some(cd) => conv_in.incr_mapi_cutoff(userfn, to_cutoff(cd)),
+        let out: Incr<im_rc::OrdMap<i64, Val>> = if filter {
+            let mut uf = userfn;
+            let ff = move |key: &i64, input: Incr<Val>| -> Incr<Option<Val>> { uf(key, input).map(keep) };
+            match &cutoff {
+                None => conv_in.incr_filter_mapi_(ff),
+                Some(cd) => conv_in.incr_filter_mapi_cutoff(ff, to_cutoff(cd)),
+            }
+        } else {
+            match &cutoff {
+                None => conv_in.incr_mapi_(userfn),
+                Some(cd) => conv_in.incr_mapi_cutoff(userfn, to_cutoff(cd)),
+            }
         };
         out.map(|m| Val::Map(m.iter().map(|(k, v)| (*k, v.as_int())).collect()))
     }
@@ -1091,13 +1117,20 @@ impl Interp {
                 var.set(Val::Map(m));
                 "ok".into()
             }
-            "permapi" | "permapiom" => {
+            "permapi" | "permapiom" | "perfilter" | "perfilterom" => {
                 let inp = self.h(p.nat());
                 let ct = p.next();
                 let cutoff = if ct == "-" { None } else { Some(P::cutoff(&ct)) };
                 let f = p.bindfn();
                 let f = handles_bindfn(&self.ctx.hnodes.borrow(), &f);
-                let n = perkey_new(&self.ctx.state, &inp, cutoff, f, line.starts_with("permapiom"));
+                let n = perkey_new(
+                    &self.ctx.state,
+                    &inp,
+                    cutoff,
+                    f,
+                    line.starts_with("permapiom") || line.starts_with("perfilterom"),
+                    line.starts_with("perfilter"),
+                );
                 self.push(n)
             }
             "pair" => {
